@@ -76,12 +76,14 @@ def run_unit(uid, timeout_ms=10000):
         from .interp import _MODULES
         for m_ in _MODULES.values():
             m_.cache.clear()
+        core.CURRENT_CTX[0] = ctx
         ip = Interp(ctx)
         try:
             u.fn(ip)
         except PathDone:
             pass
         finally:
+            core.CURRENT_CTX[0] = None
             used_models.update(ip.used_models)
             used_summaries.update(ip.used_summaries)
             inlined.update(ip.inlined)
